@@ -4,6 +4,7 @@
    2 proactors sharing one pool (panicking jobs)
    3 Runtime::spawn_blocking
    4 k jobs finishing together while the driver sleeps in poll (result delivery wake-up)
+   5 the OS refuses a thread exactly when the pool must grow (RLIMIT_AS in a child process)
 Second part (harness/ext/src/bin/c17d.rs, class D below): a compio_dispatcher::Dispatcher
 whose worker runtimes and dispatch_blocking share one pool."""
 import random
@@ -68,8 +69,16 @@ def gen_wake(rng, thorough=False):
     l = rng.choice([k, k, k + 1, 4]) if k < 4 else 4
     l = max(l, k)
     rounds = rng.choice([300, 400, 600]) if thorough else rng.choice([150, 200, 300])
-    # drv 0 = io_uring (the important one)
-    return [4, l, rng.choice([20, 50, 100]), rng.choice([0, 0, 0, 1]), k, rounds, rng.choice([0, 0, 100, 500, 1000, 2000])]
+    # drv 0 = io_uring (the important one); the last number is how long after the k-th job arrived all k
+    # return together (the driver thread needs that long to fall asleep in poll)
+    return [4, l, rng.choice([20, 50, 100]), rng.choice([0, 0, 0, 1]), k, rounds, rng.choice([100, 200, 300, 500, 1000])]
+
+
+def gen_fault(rng):
+    l = rng.choice([1, 1, 2, 3, 4])
+    sub = rng.choice([0, 0, 1])
+    m = rng.randrange(l) if sub == 0 else 0
+    return [5, l, rng.choice([1, 5, 10, 20]), sub, m, rng.choice([0, 1])]
 
 
 def gen_adversarial(rng):
@@ -100,10 +109,17 @@ def generate(seed, n):
             out.append(gen_proactors(rng))
         elif r < 0.88:
             out.append(gen_runtime(rng))
-        elif r < 0.96:
+        elif r < 0.93:
             out.append(gen_wake(rng, thorough))
+        elif r < 0.97:
+            out.append(gen_fault(rng))
         else:
             out.append(gen_adversarial(rng))
+    # every behaviour class is exercised by at least a dozen generated cases in every run
+    for mode, g in ((1, gen_window), (4, lambda r: gen_wake(r, thorough)), (5, gen_fault), (2, gen_proactors),
+                    (3, gen_runtime)):
+        have = sum(1 for c in out if c and c[0] == mode)
+        out += [g(rng) for _ in range(max(0, 12 - have))]
     return out
 
 
@@ -121,6 +137,8 @@ def describe(case):
         return "runtime/L%d" % case[1]
     if m == 4 and len(case) > 5:
         return "wake/%s/k%d" % ("uring" if case[3] == 0 else "poll", case[4])
+    if m == 5 and len(case) > 5:
+        return "spawnfail/%s/L%d/m%d" % ("pool" if case[3] == 0 else "push", case[1], case[4])
     return "malformed"
 
 
@@ -128,6 +146,8 @@ def nontrivial(case, out):
     # a worker was spawned through a reservation and a job ran
     if not out or out[0] == 99999 or len(out) < 2:
         return False
+    if case[:1] == [5]:
+        return len(out) >= 11 and out[-3] == 1      # the injected fault really refused a thread
     n = out[0]
     kinds = out[1:1 + 3 * n:3]
     return 5 in kinds and 8 in kinds and 9 in kinds
@@ -161,11 +181,28 @@ class D:
         return case
 
     @staticmethod
+    def gen_probe(rng):
+        """saturation probe: exactly L gated spawn_blocking jobs first, then dispatch_blocking jobs"""
+        l = rng.choice([1, 1, 2, 2, 3, 4])
+        w = rng.choice([1, 2, 3, 4])
+        conc = 1 if w < l else rng.choice([0, 1])
+        s = rng.choice([1, 2])
+        n1 = rng.randrange(1, 5)
+        case = [l, rng.choice([1, 5, 10, 20, 50]), w, conc, 3, s, l + n1]
+        for _ in range(l):
+            case += [0, rng.choice([0, 500, 2000]), 0]
+        for _ in range(n1):
+            case += [1, rng.choice([200, 1000, 3000]), 0]
+        return case
+
+    @staticmethod
     def generate(seed, n):
         rng = random.Random(seed * 104729 + 5)
         out = []
         for _ in range(n):
-            if rng.random() < 0.04:
+            if rng.random() < 0.25:
+                out.append(D.gen_probe(rng))
+            elif rng.random() < 0.04:
                 out.append(rng.choice([[0, 5, 1, 1, 0, 1, 0], [1, 5, 9, 1, 0, 1, 0], [1, 5, 1, 1, 0, 1, 1, 1, 100, 1], [2, 5, 2]]))
             else:
                 out.append(D.gen_case(rng))
